@@ -1,12 +1,14 @@
 import NasVerif.Props.C07
+import NasVerif.Proofs.EncLoops
 /-!
 # C08 — security API laws
 
 Proved for the model of `NASEncrypt` / `NASMacCalculate` (all algorithm ids 0..255, bearers, directions 0..255, payloads
 incl. empty and nil): argument validation (error, payload untouched), NULL algorithms, MAC length, and for algorithm 2
 (any block cipher with 16-octet blocks): length preservation, involution, prefix stability, plaintext independence.
-The same laws for algorithms 1 and 3 need the closed form of the NEA1/NEA3 byte loops (stated in C06); they are
-evaluated directly on the real code by the C08 oracle on every run: level "proof, partial".
+The same laws for algorithms 1 and 3 follow from the closed form of the NEA1 / NEA3 byte loops at LENGTH = 8·octets
+(`Proofs/EncLoops.lean`: payload XOR a keystream that depends on key, COUNT, bearer, direction and the length only, with
+the keystream of a shorter payload a prefix of that of a longer one), and no payload or message length makes either API panic.
 -/
 namespace NasVerif.Props.C08
 open NasVerif NasVerif.Model NasVerif.Model.Security
@@ -227,19 +229,94 @@ theorem nea2_prefix (key : Bytes) (count : W32) (b d : UInt8) (p out : Bytes) (n
   rw [xorB_take, ctrKS_prefix (E key) (hE key) _ _ _ hn]
   simp [Nat.min_eq_left hn]
 
-/-! ### algorithms 1 and 3: stated, evaluated on the real code by the C08 oracle each run -/
+/-! ### algorithms 1 and 3 -/
 
-def enc13_laws_statement : Prop :=
-  ∀ (algo : UInt8) (key : Bytes) (count : W32) (b d : UInt8) (p : Bytes),
-    (algo = 1 ∨ algo = 3) → key.length = 16 → ¬ b > 0x1f → ¬ d > 1 → p.length * 8 + 31 < 2^32 →
+open NasVerif.Proofs.EncLoops in
+/-- the closed form: for algorithm 1 or 3 and valid bearer / direction there is a keystream family `ks` (octets, one sequence
+per length, each a prefix of the longer ones) such that every payload is XORed with `ks` of its length -/
+theorem enc13_laws (algo : UInt8) (key : Bytes) (count : W32) (b d : UInt8) (ha : algo = 1 ∨ algo = 3)
+    (hb : ¬ b > 0x1f) (hd : ¬ d > 1) :
     ∃ ks : Nat → Bytes, (∀ n, (ks n).length = n) ∧ (∀ n m, m ≤ n → (ks n).take m = ks m) ∧
-      ∀ q : Bytes, q.length = p.length →
-        NASEncrypt E algo key count b d (some q) = .ok ⟨false, some (Spec.AES.xorB q (ks q.length))⟩
+      ∀ q : Bytes, NASEncrypt E algo key count b d (some q) = .ok ⟨false, some (Spec.AES.xorB q (ks q.length))⟩ := by
+  rcases ha with rfl | rfl
+  · refine ⟨ks1 key count (BitVec.ofNat 32 b.toNat) (BitVec.ofNat 32 d.toNat), ks1_length _ _ _ _, ks1_prefix _ _ _ _, ?_⟩
+    intro q
+    have := nasEncrypt13_form E 1 key count b d q (Or.inl rfl) hb hd
+    simpa using this
+  · refine ⟨ks3 key count b d, ks3_length _ _ _ _, ks3_prefix _ _ _ _, ?_⟩
+    intro q
+    have := nasEncrypt13_form E 3 key count b d q (Or.inr rfl) hb hd
+    simpa using this
 
-def no_panic_statement : Prop :=
-  ∀ (algo : UInt8) (key : Bytes) (count : W32) (b d : UInt8) (p : Option Bytes),
-    key.length = 16 → (∀ x, p = some x → x.length * 8 + 63 < 2^32) →
-    NASEncrypt E algo key count b d p ≠ .panic ∧ NASMacCalculate E algo key count b d p ≠ .panic
+/-- length preservation, involution, prefix stability and plaintext independence for algorithms 1 and 3, through the API -/
+theorem enc13_involution_prefix (algo : UInt8) (key : Bytes) (count : W32) (b d : UInt8) (ha : algo = 1 ∨ algo = 3)
+    (hb : ¬ b > 0x1f) (hd : ¬ d > 1) (p : Bytes) :
+    ∃ out, NASEncrypt E algo key count b d (some p) = .ok ⟨false, some out⟩ ∧ out.length = p.length ∧
+      NASEncrypt E algo key count b d (some out) = .ok ⟨false, some p⟩ ∧
+      (∀ n, n ≤ p.length → NASEncrypt E algo key count b d (some (p.take n)) = .ok ⟨false, some (out.take n)⟩) ∧
+      (∀ p' : Bytes, p'.length = p.length → ∃ out', NASEncrypt E algo key count b d (some p') = .ok ⟨false, some out'⟩ ∧
+        Spec.AES.xorB out' p' = Spec.AES.xorB out p) := by
+  obtain ⟨ks, hl, hp, hf⟩ := enc13_laws E algo key count b d ha hb hd
+  have hol : (Spec.AES.xorB p (ks p.length)).length = p.length := by simp [Spec.AES.xorB, hl]
+  refine ⟨_, hf p, hol, ?_, ?_, ?_⟩
+  · rw [hf, hol, xorB_xorB p _ (hl _)]
+  · intro n hn
+    rw [hf, xorB_take, List.length_take, Nat.min_eq_left hn, hp _ _ hn]
+  · intro p' hp'
+    refine ⟨_, hf p', ?_⟩
+    rw [hp']
+    have comm : ∀ a b : Bytes, Spec.AES.xorB a b = Spec.AES.xorB b a := by
+      intro a b; unfold Spec.AES.xorB
+      induction a generalizing b with
+      | nil => cases b <;> rfl
+      | cons x xs ih => cases b with
+        | nil => rfl
+        | cons y ys => simp [List.zipWith, ih, UInt8.xor_comm]
+    rw [comm p' _, comm p _, xorB_xorB _ p' (by rw [hl, hp']), xorB_xorB _ p (by rw [hl])]
+
+open NasVerif.Proofs.EncLoops in
+/-- no algorithm identity, bearer, direction, payload or message (nil, empty or of any length) makes either API panic -/
+theorem api_never_panics (algo : UInt8) (key : Bytes) (count : W32) (b d : UInt8) (p : Option Bytes) :
+    NASEncrypt E algo key count b d p ≠ .panic ∧ NASMacCalculate E algo key count b d p ≠ .panic := by
+  constructor
+  · unfold NASEncrypt
+    split
+    · intro h; cases h
+    · split
+      · intro h; cases h
+      · cases p with
+        | none => intro h; cases h
+        | some q =>
+          simp only []
+          split
+          · intro h; cases h
+          · split
+            · rw [nea1_bytes]; intro h; cases h
+            · split
+              · simp only [NEA2]; intro h; cases h
+              · split
+                · rw [nea3_bytes]; intro h; cases h
+                · intro h; cases h
+  · unfold NASMacCalculate
+    split
+    · intro h; cases h
+    · split
+      · intro h; cases h
+      · cases p with
+        | none => intro h; cases h
+        | some m =>
+          simp only []
+          split
+          · intro h; cases h
+          · split
+            · obtain ⟨mac, hm⟩ := nia1_no_panic key count b (BitVec.ofNat 32 d.toNat) m
+              rw [hm]; intro h; cases h
+            · split
+              · simp only [NIA2]; intro h; cases h
+              · split
+                · obtain ⟨mac, hm⟩ := nia3_no_panic key count b d m
+                  rw [hm]; intro h; cases h
+                · intro h; cases h
 
 /-- non-vacuity -/
 example : (8 : UInt8) > 3 ∧ ¬ ((31 : UInt8) > 0x1f) ∧ ((32 : UInt8) > 0x1f) := by decide
